@@ -393,6 +393,8 @@ def conditions(tier):
                         timeout=3000, part="monitor"))
         for name, pre in prefixes:
             nf = 3 if any(f == 2 for f, _ in pre) else 2
+            if any(c.name == "monitor-%s-d3" % name for c in out):
+                continue
             out.append(Cond("monitor-%s-d3" % name, "monitor_history",
                             dict(d=3, nfiles=nf, prefix=[list(x) for x in pre]),
                             bounds="concrete prefix %s then " % ([(FILES[f], CONTENT_NAMES[c]) for f, c in pre],)
